@@ -105,6 +105,8 @@ fn main() {
             let mut tried = 0usize;
             for c in cases {
                 tried += 1;
+                // a crash that cannot be caught (stack overflow, abort) is attributed to the last case announced here
+                eprintln!("RUNNING {}", c);
                 if let Err(e) = run_case(&c) {
                     let mut c = c;
                     c["why"] = json!(e);
